@@ -362,6 +362,8 @@ enum Beh {
     Kill,
     Detached,
     Sleep(u64), // sleeps that long (ms) and passes; used with a document limit
+    /// the same, in a shell that ignores SIGTERM (`trap '' TERM`) or defers it (`trap : TERM`): "is aborted" must not depend on the command's cooperation
+    SleepNoTerm(u64, bool),
     /// Cram only: the command leaves the shell (`exit N`): the one script ends here
     ExitShell(i32),
 }
@@ -419,6 +421,7 @@ fn render_doc(d: &EDoc, di: usize, marker: &Path) -> (String, Vec<T>) {
                     ("sleep 0.01".to_string(), "", None, T { status: St::Detached, acc_empty: true, ..base })
                 }
                 Beh::Sleep(ms) => (format!("{mark}; sleep {}.{:03}; echo ok", ms / 1000, ms % 1000), "ok", None, T { dur: Some(*ms), ..base }),
+                Beh::SleepNoTerm(ms, ignore) => (format!("{mark}; trap {} TERM; sleep {}.{:03}; echo ok", if *ignore { "''" } else { ":" }, ms / 1000, ms % 1000), "ok", None, T { dur: Some(*ms), ..base }),
                 // dur = Some(1) is the model's marker for "leaves the shell with this code"
                 Beh::ExitShell(c) => (format!("{mark}; echo ok; exit {c}"), "ok", Some(*c), T { expected: Some(*c), status: St::Code(*c), dur: Some(1), ..base }),
             }
@@ -457,7 +460,7 @@ fn spec_outcomes(d: &EDoc) -> Option<Vec<(usize, &'static str)>> {
         return None;
     }
     let kinds = |b: &Beh| match b {
-        Beh::Pass | Beh::PassCode(_) | Beh::Sleep(_) => "success",
+        Beh::Pass | Beh::PassCode(_) | Beh::Sleep(_) | Beh::SleepNoTerm(..) => "success",
         Beh::BadOut => "malformed_output",
         Beh::BadCode(_) => "invalid_exit_code",
         Beh::Kill => "internal_error",
@@ -842,6 +845,10 @@ fn timed_docs() -> Vec<EDoc> {
         EDoc { cram: false, broken: false, total: Some(20_000), tests: vec![s(100, Some(5_000)), s(100, None)] },
         // unlimited document, per-test limit hit in last position
         EDoc { cram: false, broken: false, total: Some(0), tests: vec![s(10, None), s(2500, Some(300))] },
+        // the overrunning command ignores / defers SIGTERM: it must be aborted at the limit all the same
+        // (6 s of sleep against a limit of 0.4 s: the bound of limit + margin is far below the sleep)
+        EDoc { cram: false, broken: false, total: Some(20_000), tests: vec![s(10, None), (Beh::SleepNoTerm(6000, true), Some(400)), s(10, None)] },
+        EDoc { cram: false, broken: false, total: Some(500), tests: vec![(Beh::SleepNoTerm(6000, false), None), s(10, None)] },
     ]
 }
 
@@ -855,7 +862,7 @@ fn timed_spec(d: &EDoc) -> Vec<(usize, &'static str)> {
         Some(t) => Some(t),
     };
     for (i, (b, to)) in d.tests.iter().enumerate() {
-        let dur = if let Beh::Sleep(ms) = b { *ms } else { 0 };
+        let dur = match b { Beh::Sleep(ms) | Beh::SleepNoTerm(ms, _) => *ms, _ => 0 };
         let rem = total.map(|t| t.saturating_sub(now));
         let lim = match (to, rem) {
             (Some(p), Some(r)) => Some((*p).min(r)),
@@ -913,7 +920,7 @@ fn timed_case(prop: &str, d: EDoc, tmproot: &Path, idx: u64) -> CaseRec {
     let bound: u64 = {
         let mut now = 0u64;
         for (i, (b, _)) in d.tests.iter().enumerate() {
-            let dur = if let Beh::Sleep(ms) = b { *ms } else { 0 };
+            let dur = match b { Beh::Sleep(ms) | Beh::SleepNoTerm(ms, _) => *ms, _ => 0 };
             if want.get(i).map(|w| w.1) == Some("timeout") {
                 let total = match d.total { None => 900_000, Some(0) => u64::MAX, Some(t) => t };
                 let lim = d.tests[i].1.unwrap_or(u64::MAX).min(total.saturating_sub(now));
@@ -922,7 +929,7 @@ fn timed_case(prop: &str, d: EDoc, tmproot: &Path, idx: u64) -> CaseRec {
             }
             now += dur;
         }
-        now + 1500
+        now + 2500
     };
     if wall.as_millis() as u64 > bound {
         fails.push(("C14:not-aborted-in-time".into(), format!("run took {} ms, bound {} ms", wall.as_millis(), bound)));
